@@ -641,7 +641,13 @@ func (s *Server) getCachedInitErrorResponse() *interop.ErrorInvokeResponse {
 // current when the failure is handled: after a timeout or reset the reservation may already be gone or
 // belong to the next caller, in which case there is nobody left to answer.
 func (s *Server) trySendDefaultErrorResponse(invokeID string, resp *interop.ErrorInvokeResponse) {
-	if err := s.SendErrorResponse(invokeID, resp); err != nil {
+	err := s.SendErrorResponse(invokeID, resp)
+	if tooLarge, ok := err.(*interop.ErrorResponseTooLarge); ok {
+		// a cached /init/error payload above the response size limit: the caller is told so,
+		// as for an oversized response of the runtime
+		err = s.SendErrorResponse(invokeID, tooLarge.AsErrorResponse())
+	}
+	if err != nil {
 		if err != interop.ErrResponseSent && err != interop.ErrInvalidInvokeID {
 			log.Panicf("Failed to send default error response: %s", err)
 		}
